@@ -1657,6 +1657,11 @@ def _loops_to_comprehensions(stmts: List[ast.stmt]) -> List[ast.stmt]:
                 break
             acc = None
             kind = None
+            if isinstance(inner, ast.Expr) and isinstance(inner.value, ast.Call) and isinstance(inner.value.func, ast.Attribute) and isinstance(inner.value.func.value, ast.Name) and len(inner.value.args) == 1 and not inner.value.keywords and inner.value.func.attr == "extend":
+                # acc.extend(E)  ==  for _y in E: acc.append(_y)
+                yv = f"_ext{len(out)}"
+                extra_gens.append(ast.comprehension(target=ast.Name(id=yv, ctx=ast.Store()), iter=inner.value.args[0], ifs=[], is_async=0))
+                inner = ast.Expr(value=ast.Call(func=ast.Attribute(value=inner.value.func.value, attr="append", ctx=ast.Load()), args=[ast.Name(id=yv, ctx=ast.Load())], keywords=[]))
             if isinstance(inner, ast.Expr) and isinstance(inner.value, ast.Call) and isinstance(inner.value.func, ast.Attribute) and isinstance(inner.value.func.value, ast.Name) and len(inner.value.args) == 1 and not inner.value.keywords:
                 if inner.value.func.attr == "append":
                     acc, kind, elt = inner.value.func.value.id, "list", inner.value.args[0]
@@ -2322,13 +2327,32 @@ def _sort_inert_runs(stmts: List[ast.stmt]) -> List[ast.stmt]:
         out.extend(run)
         run.clear()
 
+    aug: List[ast.stmt] = []
+
+    def flush_aug():
+        # consecutive `self.a += <total expr>` on distinct attributes, none reading another's target
+        if len(aug) > 1:
+            tg = [ast.dump(a.target) for a in aug]
+            attrs = {a.target.attr for a in aug}
+            reads = {n.attr for a in aug for n in ast.walk(a.value) if isinstance(n, ast.Attribute)}
+            if len(set(tg)) == len(tg) and not (attrs & reads):
+                aug.sort(key=lambda a: ast.dump(a.target))
+        out.extend(aug)
+        aug.clear()
+
     for s in stmts:
         if isinstance(s, ast.Assign) and len(s.targets) == 1 and isinstance(s.targets[0], ast.Name) and _expr_kind(s.value) != "unknown" and not _has_impure_call(s.value):
+            flush_aug()
             run.append(s)
+        elif isinstance(s, ast.AugAssign) and isinstance(s.target, ast.Attribute) and isinstance(s.target.value, ast.Name) and _expr_kind(s.value) == "total":
+            flush()
+            aug.append(s)
         else:
             flush()
+            flush_aug()
             out.append(s)
     flush()
+    flush_aug()
     return out
 
 
